@@ -234,31 +234,10 @@ func runSASibling(c *load.Ctx, r *report.RuleResult, rel, ctor, typ string, maxD
 	}
 	enumMode := rel == "rules/enum"
 	if enumMode {
-		// the enum scanner rejects duplicate values by looking the literal's text up in a map: that
-		// depends on the content, which the model does not track; the explored language is "no duplicates".
-		vv := c.Func(rel, typ+".validateValue")
-		if vv == nil {
-			r.Unk("anchor|"+rel+".validateValue", "", "method validateValue not found")
+		if err := prepareEnumModel(c, m); err != nil {
+			r.Unk("anchor|"+rel, "", err.Error())
 			return
 		}
-		m.cfg.Intrinsics[vv.String()] = func(in *pe.Interp, args []pe.Value) (pe.Value, bool) { return pe.NilV{}, true }
-		eos := ""
-		for _, o := range pe.ExploreFn(m.cfg, func(in *pe.Interp) pe.Value {
-			g, _ := c.SSAPkg(rel).Members["errEOS"].(*ssa.Global)
-			if g == nil {
-				in.Undecided("global errEOS not found")
-			}
-			return in.Load(in.GlobalPtr(g))
-		}) {
-			if o.Undecided == "" && !o.Panicked {
-				eos = pe.Show(o.Ret)
-			}
-		}
-		if eos == "" {
-			r.Unk("anchor|"+rel+".errEOS", "", "end-of-stream error value not resolvable")
-			return
-		}
-		m.errIsEOS = func(v pe.Value) bool { return pe.Show(v) == eos }
 	}
 	start := prodState{impl: m.Initial(), ref: spec.JRef{}}
 	seen := map[string]bool{start.impl.key + "\x00" + start.ref.Key(): true}
@@ -357,4 +336,33 @@ func runSASibling(c *load.Ctx, r *report.RuleResult, rel, ctor, typ string, maxD
 	}
 	r.Stat("pairs", pairs)
 	r.Stat("transitions", transitions)
+}
+
+// prepareEnumModel abstracts the content-dependent parts of the enum scanner.
+func prepareEnumModel(c *load.Ctx, m *scanModel) error {
+	rel, typ := "rules/enum", "scanner"
+	// the enum scanner rejects duplicate values by looking the literal's text up in a map: that
+	// depends on the content, which the model does not track; the explored language is "no duplicates".
+	vv := c.Func(rel, typ+".validateValue")
+	if vv == nil {
+		return fmt.Errorf("method %s.validateValue not found", typ)
+	}
+	m.cfg.Intrinsics[vv.String()] = func(in *pe.Interp, args []pe.Value) (pe.Value, bool) { return pe.NilV{}, true }
+	eos := ""
+	for _, o := range pe.ExploreFn(m.cfg, func(in *pe.Interp) pe.Value {
+		g, _ := c.SSAPkg(rel).Members["errEOS"].(*ssa.Global)
+		if g == nil {
+			in.Undecided("global errEOS not found")
+		}
+		return in.Load(in.GlobalPtr(g))
+	}) {
+		if o.Undecided == "" && !o.Panicked {
+			eos = pe.Show(o.Ret)
+		}
+	}
+	if eos == "" {
+		return fmt.Errorf("end-of-stream error value errEOS not resolvable")
+	}
+	m.errIsEOS = func(v pe.Value) bool { return pe.Show(v) == eos }
+	return nil
 }
